@@ -873,12 +873,15 @@ type delayCase struct {
 	Name      string `json:"name"`
 	MonitorUp bool   `json:"monitor_up"`
 	ArchRuns  bool   `json:"archetype_runs"`
+	Hung      string `json:"hung_monitor,omitempty"` // "silent-listener" | "relay-holds-answers": see runHung
 }
 
 var delayCases = []delayCase{
-	{"uninitialised/monitor-up/archetype-running", true, true},
-	{"uninitialised/monitor-up/archetype-unknown", true, false},
-	{"uninitialised/monitor-down", false, false},
+	{"uninitialised/monitor-up/archetype-running", true, true, ""},
+	{"uninitialised/monitor-up/archetype-unknown", true, false, ""},
+	{"uninitialised/monitor-down", false, false, ""},
+	{"uninitialised/monitor-hung/silent-listener", true, false, "silent-listener"},
+	{"uninitialised/monitor-hung/relay-holds-answers", true, true, "relay-holds-answers"},
 }
 
 const delayInterval = 1500 * time.Millisecond
@@ -1112,6 +1115,7 @@ type replay struct {
 	Choices []int      `json:"choices,omitempty"`
 	Tier    string     `json:"tier,omitempty"`
 	Delay   *delayCase `json:"delay,omitempty"`
+	Shared  bool       `json:"shared_detector,omitempty"` // choices of the shared-detector exploration
 }
 
 func TestCheck(t *testing.T) {
@@ -1125,6 +1129,8 @@ func TestCheck(t *testing.T) {
 			"before the watched archetype has started, and while it runs under a monitor that has not been started yet, the statement requires nothing and nothing is demanded",
 			"relay configurations: the detector reaches the monitor through a harness TCP relay (5-20 ms real latency on answers); stall = answers held until k probes have timed out, release = held answers delivered (before or after the next probe), cut = connections closed; while stalled nothing is demanded, afterwards alive / failed as usual, alive also with the 30 ms RPC timeout",
 			"early-close configurations: Monitor.Close() before `go ListenAndServe()`, or right after it without waiting for the listener; the harness then waits until the address accepts a connection or ListenAndServe has returned, accepts both, and demands failed in both",
+			"shared-detector configurations drive the real raftkvs client bootstrap (bootstrap.NewClient, Client.Run, Client.Close) against a monitored archetype; a failure gets one of the keys completeness/shared-detector-closed-by-sibling/raftkvs-client[-created-after] only if the accessor shows the detector was closed when a sibling client ended (harness log) and a control detector built by the same helper does report the failure; otherwise the generic key",
+			"hung-monitor delay cases: pull interval 200 ms, RPC timeout 40 s, monitor accepts and never answers; a read must return within 10 intervals",
 			"operation-level orders only: goroutine interleavings inside net/rpc and mainLoop are not controlled",
 		}
 		cfgs := configs(env.Thorough())
@@ -1138,6 +1144,13 @@ func TestCheck(t *testing.T) {
 				_, f := runDelay(*r.Delay, &worker{ip: procIP(200), port: 20000})
 				if f != nil {
 					res.Violations = append(res.Violations, *f)
+				}
+				return res
+			}
+			if r.Shared {
+				v, _, _ := explore.ReplayOnce(sharedBody(sharedConfigs(r.Tier == "thorough")), r.Choices, 0, &worker{ip: procIP(220), port: 20000})
+				if v != nil {
+					res.Violations = append(res.Violations, hres.Viol{Key: v.Key, What: v.What, Replay: r})
 				}
 				return res
 			}
@@ -1173,9 +1186,17 @@ func TestCheck(t *testing.T) {
 			}(i, dc)
 		}
 
-		workers := env.Workers * 2
-		if workers < 8 {
-			workers = 8
+		// shared-detector configurations (real raftkvs bootstrap wiring, process-global detector map): one at a time, beside the rest
+		scfgs := sharedConfigs(env.Thorough())
+		sch := make(chan *explore.Stats, 1)
+		go func() {
+			sch <- explore.Run(sharedBody(scfgs), explore.Options{Budget: 0, Workers: 1, Deadline: env.Deadline.Add(-20 * time.Second), Samples: 2,
+				Setup: func(int) any { return &worker{ip: procIP(220), port: 20000} }})
+		}()
+
+		workers := env.Workers * 6 // the executions sleep almost all the time
+		if workers < 16 {
+			workers = 16
 		}
 		if workers > 48 {
 			workers = 48
@@ -1187,6 +1208,12 @@ func TestCheck(t *testing.T) {
 		viol := map[string]hres.Viol{}
 		for _, v := range st.Violations {
 			viol[v.Key] = hres.Viol{Key: v.Key, What: v.What + " | history: " + fmt.Sprint(v.Detail), Replay: replay{Choices: v.Choices, Tier: env.Tier}}
+		}
+		sst := <-sch
+		for _, v := range sst.Violations {
+			if _, ok := viol[v.Key]; !ok {
+				viol[v.Key] = hres.Viol{Key: v.Key, What: v.What + " | history: " + fmt.Sprint(v.Detail), Replay: replay{Choices: v.Choices, Tier: env.Tier, Shared: true}}
+			}
 		}
 		var delayOut []string
 		for range delayCases {
@@ -1210,6 +1237,16 @@ func TestCheck(t *testing.T) {
 		}
 		perCfg := map[string]int{}
 		discarded := 0
+		for o, n := range sst.OutcomeHist {
+			if strings.HasPrefix(o, "discarded:") {
+				discarded += n
+				continue
+			}
+			perCfg[strings.SplitN(o, " ", 2)[0]] += n
+		}
+		for _, sm := range sst.Samples {
+			st.Samples = append(st.Samples, sm)
+		}
 		for o, n := range st.OutcomeHist {
 			if strings.HasPrefix(o, "discarded:") {
 				discarded += n
@@ -1225,18 +1262,20 @@ func TestCheck(t *testing.T) {
 			samples = append(samples, map[string]any{"delay_case": d})
 		}
 		res.Coverage = map[string]any{
-			"evaluations":         int(st.Executions) + len(delayCases),
-			"distinct_nontrivial": st.Outcomes - boolInt(discarded > 0) + len(delayOut),
+			"evaluations":         int(st.Executions) + int(sst.Executions) + len(delayCases),
+			"distinct_nontrivial": st.Outcomes + sst.Outcomes - boolInt(discarded > 0) + len(delayOut),
 			"rule": "every causally possible order of {monitor start, detector start, archetype start, archetype end in {normal,error,panic}, monitor shutdown, and in the relay configurations stall(d,k) / release(d, before|after the next probe) / cut(d) within the fault budget} per configuration " +
 				"(fresh Monitor + NewFailureDetector on loopback per order); after each event every started detector is polled until 21 consecutive ReadValue answers, spread over 5 polling intervals, give the required answer " +
 				"(deadline 10 s); a never-read twin detector must end in the same state and report; " +
 				"distinct = distinct (configuration, event order with end kinds, required/observed final states); plus the delay cases with the interval raised to 1.5 s",
-			"samples":                             samples,
-			"configurations":                      cfgs,
-			"orders_per_configuration":            perCfg,
-			"exhaustive":                          st.Exhaustive && discarded == 0,
+			"samples":                  samples,
+			"configurations":           cfgs,
+			"orders_per_configuration": perCfg,
+			"exhaustive":               st.Exhaustive && sst.Exhaustive && discarded == 0,
+			"shared_detector": map[string]any{"configurations": scfgs, "executions": sst.Executions, "violating_executions": int(sst.Executions) - sumNonDiscarded(sst.OutcomeHist),
+				"checks": sharedChecks.Load(), "checks_on_detector_closed_by_sibling": sharedClosed.Load(), "divergences": sst.Divergences, "wall_s": sst.WallS},
 			"cap_hit":                             st.CapHit,
-			"divergences":                         st.Divergences,
+			"divergences":                         st.Divergences + sst.Divergences,
 			"discarded_env_timeout":               discarded,
 			"env_timeouts":                        envTimeouts.Load(),
 			"port_rebinds":                        portRetries.Load(),
@@ -1282,3 +1321,11 @@ func unconfirmed(confirmed map[string]hres.Viol) map[string][]string {
 // procIP: a loopback address private to this worker of this process (concurrent runs of the check - e.g. a mutant sweep
 // beside a normal run - must never meet on an address).
 func procIP(w int) string { return fmt.Sprintf("127.19.%d.%d", w, 1+os.Getpid()%250) }
+
+func sumNonDiscarded(h map[string]int) int {
+	n := 0
+	for _, c := range h {
+		n += c
+	}
+	return n
+}
